@@ -279,12 +279,15 @@ func Main(prop string, legs []string, run RunFunc) {
 			emit(map[string]any{"start": k, "seed": seed, "leg": leg})
 			st := NewGen(seed)
 			res := &Result{Prop: prop, Leg: leg, Seed: seed, K: k}
-			run(st, tier, leg, false, res)
+			run(st, tier, leg, os.Getenv("SIM_LOG") != "", res)
 			res.NDecisions = len(st.Rec)
 			if len(res.Violations) > 0 && rdir != "" {
 				rf := ReplayFile{Prop: prop, Leg: leg, Seed: seed, Tier: tier, Decisions: st.Rec, Violation: &res.Violations[0], Result: res}
 				b, _ := json.Marshal(rf)
-				os.WriteFile(fmt.Sprintf("%s/%s-%s-%d.json", rdir, prop, leg, k), b, 0o644)
+				if err := os.WriteFile(fmt.Sprintf("%s/%s-%s-%d.json", rdir, prop, SafeName(leg), k), b, 0o644); err != nil {
+					fmt.Fprintln(os.Stderr, "simcore: cannot write replay file:", err)
+					os.Exit(2)
+				}
 			}
 			emit(map[string]any{"result": res})
 		}
@@ -299,4 +302,15 @@ func SortedKeys[V any](m map[string]V) []string {
 	}
 	sort.Strings(ks)
 	return ks
+}
+
+// SafeName makes a leg name usable inside a file name.
+func SafeName(s string) string {
+	b := []byte(s)
+	for i, c := range b {
+		if !(c >= 'a' && c <= 'z' || c >= 'A' && c <= 'Z' || c >= '0' && c <= '9' || c == '-' || c == '.') {
+			b[i] = '_'
+		}
+	}
+	return string(b)
 }
